@@ -38,6 +38,18 @@ func init() {
 	register("C04", &core.Rule{ID: "C04.3", Title: "dictionary limit and reset threshold reach every record builder", Mod: core.ModRoot, Floor: 4, Run: c13_3})
 }
 
+// delegatesToScan: h is a thin wrapper (a method kept for its callers) whose every path calls the dictionary scan.
+func delegatesToScan(h *ssa.Function) bool {
+	if h == nil || len(h.Blocks) == 0 || len(h.Blocks) > 3 {
+		return false
+	}
+	miss, _ := (core.PathQuery{Fn: h, ExitReturnOnly: true, Avoid: func(i ssa.Instruction) bool {
+		cl, ok := i.(*ssa.Call)
+		return ok && cl.Call.StaticCallee() != nil && cl.Call.StaticCallee() != h && isDictScanFn(cl.Call.StaticCallee())
+	}}).Exists()
+	return !miss
+}
+
 func c13_1(c *core.Ctx, p *core.Prog) {
 	fn := p.Func(pkgBuilder, "RecordBuilderExt", "NewRecord")
 	if fn == nil {
@@ -58,7 +70,7 @@ func c13_1(c *core.Ctx, p *core.Prog) {
 			inner = cl
 		case cl.Call.StaticCallee() != nil && core.FnPkgPath(cl.Call.StaticCallee()) == pkgBuilder && f != nil && sigIs(f, nil, []tp{isBool}):
 			upToDate = append(upToDate, cl)
-		case cl.Call.StaticCallee() != nil && core.FnPkgPath(cl.Call.StaticCallee()) == pkgBuilder && isDictScanFn(cl.Call.StaticCallee()):
+		case cl.Call.StaticCallee() != nil && core.FnPkgPath(cl.Call.StaticCallee()) == pkgBuilder && (isDictScanFn(cl.Call.StaticCallee()) || delegatesToScan(cl.Call.StaticCallee())):
 			scans = append(scans, cl)
 		}
 	})
